@@ -267,7 +267,7 @@ func runCheck(id, tier string, ignoreKnown, verbose bool) int {
 		"coverage": map[string]any{
 			"obligations":              nProof,
 			"discharged":               discharged + len(knownSeen)*0,
-			"known_findings_seen":      knownSeen,
+			"known_findings_seen":      nonNil(knownSeen),
 			"undischarged":             nProof - discharged,
 			"checker_cmd":              fmt.Sprintf("bin/govc check %s --tier %s", id, tier),
 			"trusted_base":             g.trustedBase(),
@@ -277,11 +277,11 @@ func runCheck(id, tier string, ignoreKnown, verbose bool) int {
 			"solver_ms_total":          solverMs,
 			"per_obligation":           perObl,
 			"samples":                  samples,
-			"bounded":                  g.Bounded,
-			"notes":                    dedup(g.Notes),
+			"bounded":                  nonNil(g.Bounded),
+			"notes":                    nonNil(dedup(g.Notes)),
 			"backends":                 "race of z3 5.1.0 (z3-new), z3 4.8.12, cvc5 1.0.3" + ifs(tier == "thorough", "; all three run, no disagreement tolerated", "; first definite answer"),
 		},
-		"assumptions": assumptions,
+		"assumptions": nonNil(assumptions),
 		"wall_s":      time.Since(t0).Seconds(),
 		"violations":  len(violations),
 	}
@@ -336,4 +336,11 @@ func runList() int {
 		fmt.Printf("%-10s %-50s props=%v clauses=%d\n", b.Kind, b.ID(), b.Props, len(b.Clauses))
 	}
 	return 0
+}
+
+func nonNil(xs []string) []string {
+	if xs == nil {
+		return []string{}
+	}
+	return xs
 }
